@@ -17,7 +17,7 @@ TOL_EIGEN = 2e-3     # graph gradients on the Eigen backend (other tanh, other k
 
 def gen_cases(ctx):
     r = ctx.rng
-    n = 1500 if ctx.quick() else 40000
+    n = 1500 if ctx.quick() else 150000
     cases, kinds, feats = [], {}, {}
     for _ in range(n):
         c, kind, feat, nreg = L.gen_c15_case(r)
@@ -133,6 +133,17 @@ def run(ctx):
     if rc1 != 0:
         ctx.violation("impl-crash", {"kind": "impl-driver-crash", "rc": rc1, "case": cases[len(io)] if len(io) < len(cases) else "<end>",
                                      "witness": "crash"}, True, "C++ driver crashed (rc=%d)" % rc1)
+    if not ctx.quick():
+        # the same runs under AddressSanitizer/UBSan: outputs must not change, nothing may be reported
+        impl2 = pv.build_harness("asan", "opt_drv")
+        sub = cases[:: max(1, len(cases) // 6000)]
+        rca, ioa, _, _, _ = L.two_pass(pv, sub, impl2, model, impl_env={"ASAN_OPTIONS": "detect_leaks=0"})
+        ref = {c: o for c, o in zip(cases, io)}
+        bada = [c for c, o in zip(sub, ioa) if ref.get(c) != o]
+        cov["asan_cases"] = len(sub)
+        if rca != 0 or bada:
+            ctx.violation("asan", {"kind": "sanitizer", "rc": rca, "case": bada[0] if bada else "<crash>", "witness": "asan"}, True,
+                          "sanitizer build crashed or changed an output (rc=%d)" % rca)
     cov.update({"measured_" + k: v for k, v in stats.items()})
     cov["distinct_nontrivial"] = len(nontrivial)
     cov["disagreements"] = ncorr
@@ -143,8 +154,25 @@ def run(ctx):
         "Checkpoint.v abstracts the byte encoding of the two files to the record of the fields written (values and all statistics of every parameter of the model; Optimizer.epoch, lr_scale, l2_strength, clip_threshold and the class's hyper-parameters); the codec round trip is property C13",
         "the training step is the documented loop reset_gradients -> forward/backward -> update, and the gradient is a function of the step number and the current parameter values (deterministic model); gradient buffers are not saved (load zeroes them), so a loop that accumulates gradients across update() calls is outside the theorem",
         "the program re-registers the same parameters with an optimizer of the same class; which parameters are registered and the class are not in the files",
-        "the theorem keeps the registration order; with another iteration order of std::unordered_set<Parameter*> (new addresses after resume) only the summation order of the clipping norm changes, which is why the implementation is compared bitwise when clipping is off and within %g otherwise" % TOL_CLIP,
+        "iteration order of std::unordered_set<Parameter*> (new addresses after resume): C15_resume_equiv_any_iteration_order proves the equivalence for every permutation of the registered list, without laws on the scalars when clipping is off and assuming associative-commutative addition when it is on (the order only permutes the summation of the norm); hence the implementation is compared bitwise when clipping is off and within %g otherwise" % TOL_CLIP,
         "the model is tied to the code by the bit-for-bit correspondence of the same runs (devices::Naive; float32 emulation as in C12)",
     ]
     if not res["ok"]:
         ctx.proof_broken()
+
+
+def replay(ctx, obj):
+    """Re-run the recorded case on the CURRENT /repo tree and on the model."""
+    import json
+    print(json.dumps({k: v for k, v in obj.items() if k not in ("build_log_tail",)}, indent=1)[:3000])
+    case = obj.get("case")
+    if not case:
+        return 0
+    model = pv.build_ocaml("optim")
+    impl = pv.build_harness("plain", "opt_drv")
+    rc1, io, rc2, mo, mc = L.two_pass(pv, [case], impl, model)
+    print("implementation:", io[0] if io else "<none>")
+    print("model         :", mo[0] if mo else "<none>")
+    same = bool(io and mo and io[0].split(" ; ")[:len(mo[0].split(" ; "))] == mo[0].split(" ; "))
+    print("REPRODUCED" if not same else "model and implementation agree on this case now (see U/R parts for the property itself)")
+    return 0
